@@ -721,7 +721,8 @@ def gen_system(rng, N=None):
     psi = psi / np.linalg.norm(psi)
     T = rng.choice([1.0, 1.5, 2.0])
     npts = rng.choice([3, 4, 6])
-    pts = sorted(set([0.0, T] + [round(rng.uniform(0, T), 3) for _ in range(npts - 2)]))
+    t0 = rng.choice([0.0, 0.0, 0.5])           # time lists need not start at 0
+    pts = sorted(set([t0, t0 + T] + [round(rng.uniform(t0, t0 + T), 3) for _ in range(npts - 2)]))
     return {"N": N, "H": H, "H1": H1, "cops": cops, "psi": psi, "tlist": pts}
 
 
@@ -762,7 +763,7 @@ def check_se_case(sysd, method, fmt, form):
                         options=_opts(method, {"store_states": True}))
     bad = []
     for k, t in enumerate(tl):
-        U = sl.expm(-1j * sysd["H"] * t)
+        U = sl.expm(-1j * sysd["H"] * (t - tl[0]))
         ref = U @ s0.full()
         got = res.states[k].full()
         err = np.linalg.norm(got - ref)
@@ -820,7 +821,7 @@ def check_me_case(sysd, method, fmt, form, route):
                         options=_opts(method, {"store_states": True}))
     bad = []
     for k, t in enumerate(tl):
-        P = sl.expm(Lm * t)
+        P = sl.expm(Lm * (t - tl[0]))
         got = res.states[k].full()
         if form == "super":
             ref = P
@@ -881,7 +882,7 @@ def check_td_case(sysd, kind, method):
 
     def rhs(t, y):
         return (-1j * (Hm + np.cos(w * t) * H1m) @ y.reshape(N, 1)).reshape(-1)
-    sol = solve_ivp(rhs, (0, tl[-1]), psi.reshape(-1).astype(complex), method="DOP853",
+    sol = solve_ivp(rhs, (tl[0], tl[-1]), psi.reshape(-1).astype(complex), method="DOP853",
                     t_eval=tl, rtol=1e-12, atol=1e-13)
     ref = [sol.y[:, k].reshape(N, 1) for k in range(len(tl))]
     tolr = max(_tol(psi), 2e-5 if kind == "array" else 0)     # spline interpolation error
@@ -904,7 +905,10 @@ def check_td_case(sysd, kind, method):
             break
     # route 3: propagator applied to the initial state
     if method in ("adams", "vern7", "dop853"):
-        U = qutip.propagator(Ht, tl[-1], options=_opts(method))
+        if tl[0] == 0:
+            U = qutip.propagator(Ht, tl[-1], options=_opts(method))
+        else:
+            U = qutip.Propagator(Ht, options=_opts(method))(tl[-1], tl[0])
         err = np.linalg.norm(U.full() @ psi - ref[-1])
         if not err <= 4 * tolr:
             bad.append(("td-propagator-vs-ket", "propagator(H,t) psi0 differs from the evolved ket: %.2e" % err))
@@ -927,6 +931,110 @@ def check_td_case(sysd, kind, method):
     return bad
 
 
+FSE_SITE = "floquet.fsesolve"
+FSE_SIG = "psi0-taken-at-t=0-instead-of-tlist[0]"
+
+
+def fsesolve_witness(ctx):
+    """Replay of the witness of C10_fsesolve_initial_state_refuted on the real
+    implementation: a driven qubit, time list starting at 0.5."""
+    import qutip
+    w = 2.0
+    T = 2 * np.pi / w
+    H = qutip.QobjEvo([0.5 * qutip.sigmaz(), [0.25 * qutip.sigmax(), lambda t: np.cos(w * t)]])
+    psi0 = qutip.basis(2, 0)
+    tl = [0.5, 1.0]
+    fb = qutip.FloquetBasis(H, T, options={"atol": ATOL, "rtol": RTOL})
+    rf = qutip.fsesolve(fb, psi0, tl, options={"store_states": True, "normalize_output": False})
+    err0 = float(np.linalg.norm(rf.states[0].full() - psi0.full()))
+    ctx.count_case(("fsesolve-witness",), nontrivial=True)
+    if err0 > 1e-6:
+        ref0 = qutip.sesolve(H, psi0, [0.0] + tl, options=_opts("vern9", {"store_states": True})).states[1:]
+        same = all(np.linalg.norm(a.full() - b.full()) <= 1e-5 for a, b in zip(rf.states, ref0))
+        ctx.violation(FSE_SITE, FSE_SIG if same else "initial-state-not-returned",
+                      "fsesolve(H, psi0, tlist=[0.5, 1.0]).states[0] differs from psi0 by %.3f: "
+                      "psi0 is expanded in the Floquet basis at t=0, not at tlist[0]" % err0,
+                      {"kind": "fsesolve_witness", "tlist": tl, "err_at_tlist0": err0,
+                       "matches_psi0_at_time_zero": bool(same),
+                       "snippet": "H=QobjEvo([.5*sigmaz(),[.25*sigmax(),lambda t: cos(2*t)]]); "
+                                  "fsesolve(H, basis(2,0), [0.5,1.0], T=pi).states[0]"},
+                      found_input=True)
+
+
+def run_fsesolve_corr(ctx, rng, ncases):
+    """Trace correspondence of fsesolve's time bookkeeping: a scripted
+    FloquetBasis (one quasi-energy, phases written additively on 1x1 integer
+    kets) is handed to the real fsesolve; the returned states are compared
+    exactly with Model/C10_floquet.v."""
+    import qutip
+    from qutip.solver.floquet import FloquetBasis
+
+    class Fake(FloquetBasis):
+        def __init__(self):
+            self.calls = []
+
+        def to_floquet_basis(self, lab_basis, t=0):
+            self.calls.append(("to", t))
+            return qutip.Qobj([[lab_basis.full()[0, 0] - t]])
+
+        def from_floquet_basis(self, floquet_basis, t=0):
+            self.calls.append(("from", t))
+            return qutip.Qobj([[floquet_basis.full()[0, 0] + t]])
+
+    cases, got = [], []
+    for _ in range(ncases):
+        v = rng.randint(-9, 9)
+        t0 = rng.choice([0, 0, 1, 3, -2])
+        ts = [t0]
+        for _ in range(rng.choice([0, 1, 2, 4])):
+            ts.append(ts[-1] + rng.randint(1, 4))
+        fake = Fake()
+        try:
+            r = qutip.fsesolve(fake, qutip.Qobj([[complex(v)]]), [float(t) for t in ts],
+                               options={"store_states": True, "normalize_output": False})
+            got.append([int(round(x.full()[0, 0].real)) for x in r.states])
+        except Exception as e:          # noqa
+            got.append("raise %s" % e)
+        cases.append((v, ts))
+    hdr = ("From Coq Require Import List ZArith.\nImport ListNotations.\n"
+           "From QV Require Import Model.C10_floquet.\n")
+    try:
+        vals = vlib.coq_eval_values(
+            "cases_C10f", hdr,
+            ["(toy_fsesolve %s %s, toy_fsesolve_at_t0 %s %s)" % (
+                vlib.cz(v), vlib.clist(ts, vlib.cz), vlib.cz(v), vlib.clist(ts, vlib.cz))
+             for v, ts in cases], chunk=400)
+    except RuntimeError as e:
+        ctx.violation("corr:C10:fsesolve-model-eval", "coqc", "fsesolve model evaluation failed",
+                      {"log": str(e)}, found_input=False)
+        return
+    # Both variants of Model/C10_floquet.v carry theorems (the code as it is:
+    # C10_fsesolve_initial_state_refuted / _partial; the one-token repair:
+    # C10_fsesolve_repaired).  The implementation must follow one of them on
+    # every case; which one is recorded in the evidence.
+    pairs = [vlib.parse_coq_value(v) for v in vals]
+    fits_cur = all(list(p[0]) == g for p, g in zip(pairs, got))
+    fits_rep = all(list(p[1]) == g for p, g in zip(pairs, got))
+    variant = "as-is (psi0 expanded at t=0)" if fits_cur else (
+        "repaired (psi0 expanded at tlist[0])" if fits_rep else "neither")
+    ctx.cov["input_distribution"]["fsesolve_model_variant_followed"] = variant
+    for (v, ts), g, pr in zip(cases, got, pairs):
+        ctx.count_case(("fsesolve", v, tuple(ts)), nontrivial=len(ts) > 1)
+        ctx.cov["traces_validated_against_impl"] += 1
+        if variant == "neither" and list(pr[0]) != g and list(pr[1]) != g:
+            ctx.violation("corr:floquet.fsesolve", "time-bookkeeping-differs",
+                          "fsesolve follows neither to_floquet_basis(psi0[, tlist[0]]) followed by "
+                          "from_floquet_basis(., t) for t in tlist",
+                          {"kind": "fsesolve_corr", "psi0": v, "tlist": ts, "impl": g,
+                           "model_as_is": list(pr[0]), "model_repaired": list(pr[1])},
+                          found_input=True)
+    if variant.startswith("repaired"):
+        ctx.notes.append("fsesolve follows the repaired model: the positive theorem "
+                         "C10_fsesolve_repaired applies; C10_fsesolve_initial_state_refuted "
+                         "describes the code before the repair")
+    ctx.cov["input_distribution"]["fsesolve_trace_cases"] = len(cases)
+
+
 def check_floquet_br_case(sysd):
     """periodic H(t) = H + cos(w t) H1: the Floquet-basis solution (fsesolve,
     FloquetBasis.state / to_/from_floquet_basis built from the one-period
@@ -947,7 +1055,16 @@ def check_floquet_br_case(sysd):
     for k in range(len(tl)):
         err = np.linalg.norm(rf.states[k].full() - ref.states[k].full())
         if not err <= tol:
-            bad.append(("floquet-vs-sesolve", "fsesolve differs from sesolve at t=%g: %.2e" % (tl[k], err)))
+            sig = "floquet-vs-sesolve"
+            if tl[0] != 0:
+                # is it exactly the known defect (psi0 used as the state at t = 0)?
+                ref0 = qutip.sesolve(Ht, psi, [0.0] + list(tl),
+                                     options=_opts("vern9", {"store_states": True})).states[1:]
+                if all(np.linalg.norm(rf.states[j].full() - ref0[j].full()) <= tol
+                       for j in range(len(tl))):
+                    sig = FSE_SIG
+            bad.append((sig, "fsesolve differs from sesolve at t=%g: %.2e (time list starts at %g)"
+                        % (tl[k], err, tl[0])))
             break
     t1 = tl[1]
     fk = fb.to_floquet_basis(psi, t1)
@@ -1028,6 +1145,11 @@ def _guard(ctx, which, key, sysd, fn):
     ctx.count_case(("oracle", which, tuple(key), json.dumps(sys_to_json(sysd), sort_keys=True)),
                    nontrivial=True)
     for sig, what in bad:
+        if sig == FSE_SIG:
+            ctx.violation(FSE_SITE, FSE_SIG, what,
+                          {"kind": "oracle", "which": which, "key": key, "system": sys_to_json(sysd)},
+                          found_input=True)
+            continue
         ctx.violation("oracle:%s" % which, key + [sig], what,
                       {"kind": "oracle", "which": which, "key": key, "system": sys_to_json(sysd)},
                       found_input=True)
@@ -1162,8 +1284,8 @@ def run(ctx):
         run_oracle(ctx, r2, 1)
 
     # the kernel / packing / matrix theorems: coqc, and coqchk in the thorough tier
-    vlib.standard_proof_step(ctx, ["Props/C10.vo", "Props/C10_mx.vo"],
-                             ["Props/C10.v", "Props/C10_mx.v"], search)
+    vlib.standard_proof_step(ctx, ["Props/C10.vo", "Props/C10_mx.vo", "Props/C10_floquet.vo"],
+                             ["Props/C10.v", "Props/C10_mx.v", "Props/C10_floquet.v"], search)
     if tabs is not None:
         # the computed tableau facts are evaluated by the kernel's VM (about 6
         # minutes of vm_compute for the 2056 plane trees of order <= 9 on 26
@@ -1175,11 +1297,19 @@ def run(ctx):
         vlib.standard_proof_step(ctx, ["Props/C10_tab.vo"], ["Props/C10_tab.v"], search)
         if not had and not ctx.cov["coqchk"]:
             del ctx.cov["coqchk"]
+        if not ctx.quick:
+            ctx.cov.setdefault("coqchk", []).append({
+                "module": "QV.Props.C10_tab", "rc": -1,
+                "summary": "SKIPPED (not an obligation): coqchk evaluates VM casts with its lazy "
+                           "machine; the order-condition evaluations (6 min in the kernel VM) did "
+                           "not finish in 17 min of coqchk CPU. Checked by coqc's kernel only."})
         ctx.notes.append("Props/C10_tab.v (vm_compute evaluations of the order conditions) is "
                          "checked by coqc only, not by coqchk (no VM in coqchk)")
     # ---- K
     run_kernel_corr(ctx, rng, 160 if ctx.quick else 1500)
     run_init_coeff_corr(ctx, rng, 80 if ctx.quick else 400)
+    run_fsesolve_corr(ctx, rng, 60 if ctx.quick else 300)
+    fsesolve_witness(ctx)
     run_packing_corr(ctx, rng, 60 if ctx.quick else 400)
     packing_roundtrip_oracle(ctx, rng, 60 if ctx.quick else 400)
     if tabs is not None:
@@ -1225,11 +1355,18 @@ def replay(ctx, payload):
         else:
             bad = check_td_case(sysd, key[1], key[0])
         for sig, what in bad:
-            ctx.violation(payload["site"], key + [sig], what, d)
+            if sig == FSE_SIG:
+                ctx.violation(FSE_SITE, FSE_SIG, what, d)
+            else:
+                ctx.violation(payload["site"], key + [sig], what, d)
     elif kind == "tableau":
         tableau_search(ctx, d.get("failed_theorems", []), "")
     elif kind == "validation":
         run_validation(ctx, random.Random(payload.get("seed", 0)), tx.read_all())
+    elif kind == "fsesolve_witness":
+        fsesolve_witness(ctx)
+    elif kind == "fsesolve_corr":
+        run_fsesolve_corr(ctx, random.Random(payload.get("seed", 0)), 60)
     elif kind == "init_coeff":
         run_init_coeff_corr(ctx, random.Random(payload.get("seed", 0)), 200)
     elif kind in ("packing", "packing_roundtrip"):
